@@ -308,7 +308,7 @@ def _run_unit(args: Tuple[Any, Tuple[Tuple[int, ...], Tuple[Any, ...]], Dict[str
 
 def explore_units(factory: Callable[..., Any], fargs: tuple, units: Sequence[Any], budget: Dict[str, int],
                   workers: Optional[int] = None, split: bool = True, deadline: Optional[float] = None,
-                  chunk: int = 1) -> Aggregate:
+                  chunk: int = 1, split_depth: int = 1) -> Aggregate:
     """Explore every unit (a program / scenario descriptor) exhaustively within ``budget`` on a pool of forked workers.
 
     With ``split`` the first level of each unit's tree is expanded in the parent so that big trees spread over workers.
@@ -330,7 +330,19 @@ def explore_units(factory: Callable[..., Any], fargs: tuple, units: Sequence[Any
             except Nondeterminism as exc:
                 total.errors.append(f'NONDETERMINISM unit={unit!r}: {exc}')
                 continue
-            for child in out['children']:
+            children = out['children']
+            for _ in range(split_depth - 1):
+                # expand one more level in the parent so that deep, narrow trees (few first moves) spread over the workers
+                grand: List[Any] = []
+                try:
+                    for child in children:
+                        sub = dfs(run, budget, root=child, on_result=on_result, expand_root_only=True)
+                        grand.extend(sub['children'])
+                except Nondeterminism as exc:
+                    total.errors.append(f'NONDETERMINISM unit={unit!r}: {exc}')
+                    grand = []
+                children = grand
+            for child in children:
                 jobs.append((unit, child, budget, deadline))
         else:
             jobs.append((unit, ((), ()), budget, deadline))
